@@ -150,7 +150,7 @@ check("C12",
       "DESIGN.md 5 C12")
 
 check("C16",
-      "Model/Snap.v: what PCE500Emulator.save_snapshot keeps (18-byte register blob of C08, RAM, internal memory, display/keyboard payloads kept abstract, timer and interrupt bookkeeping) and what load_snapshot does to a freshly constructed machine (including the USR bits it forces). "
+      "Model/Snap.v: what PCE500Emulator.save_snapshot keeps (register blob of C08, RAM, internal memory, display/keyboard payloads kept abstract, timer and interrupt bookkeeping) and what load_snapshot does to a freshly constructed machine (including the USR bits it forces). "
       "Coq theorems: for every running machine state whose USR bits are in the firmware-visible form, load(save(m)) into any fresh machine gives back m exactly, hence - by induction over any step function and any input list - the same future step for step; "
       "two refuted witnesses (a halted machine restores as running; the key-interrupt latch is dropped). "
       "Every run, on PCE500Emulator and CoreRuntime: the C12 machine scenarios with every step index (sampled in quick) as snapshot point, bundle written to disk and loaded into a fresh machine, original and restored continued with the same inputs and compared step for step plus a digest of RAM/internal memory/display; "
